@@ -1046,30 +1046,67 @@ UNITS.append(U_BINF)
 
 # =====================================================================================================================
 # C01 / C17: `assert`
+def _bail_citing(b):
+    """R3 (refined for `assert`): bail!("text {a} .. {}", b) -> an error that CITES the values it mentions (the text itself is dropped)"""
+    import re as _re
+    inner = b["a"][1:-1]
+    if not inner or not inner[0].startswith('"'):
+        return None
+    names = [m for m in _re.findall(r"\{(\w+)(?::[^}]*)?\}", inner[0])]
+    rest = inner[1:]
+    i = 0
+    while i < len(rest):
+        if rest[i] == ",":
+            i += 1; continue
+        if _re.fullmatch(r"[A-Za-z_]\w*", rest[i]) and (i + 1 == len(rest) or rest[i + 1] == ","):
+            names.append(rest[i])
+        i += 1
+    e = "verr_plain ( )"
+    for n in names:
+        e += f" . citing ( & {n} )"
+    return f"return Err ( {e} )"
+
+
 def build_assert(repo):
     src = Source(repo)
     log = []
     names = ["pop", "stack_size"]
     ctx = ctx_impl(src, log, names)
     b = handler(src, log, "assert", [
+        Rule("R3", "bail ! $a", _bail_citing, why="bail! -> return Err; the error CITES the values its message mentions (text dropped)"),
         Rule("R6", "ctx . pop ( ) . unwrap ( ) . move_out_of_heap_primitive ( ) ?", "move_out ( ctx . pop ( ) . unwrap ( ) ) ?", why="heap-pointer view abstract"),
-        Rule("R6", "item . equals ( & bool ! ( true ) ) ?", "equals_true ( & item ) ?", why="Primitive::equals against `true` (C05 / C12 obligations): true for Bool(true), false for Bool(false), an error for other kinds"),
+        Rule("R6", "item . equals ( & bool ! ( true ) ) ?", "equals_true ( & item ) ?", why="Primitive::equals against `true` (C05 / C12 obligations): true for Bool(true), false for Bool(false) and for nil, an error for other kinds"),
         Rule("R8", "let span = & args [ 0 ] ;", "let span = arg0 ( args ) ;", why="slice index with its panic precondition (R8)"),
     ])
-    gen = header(log, f"{INSTR}: assert; {CTXF}: Ctx::pop, Ctx::stack_size") + prelude("ctx.rs") + ctx + f"""
-// Primitive::equals(x, true): the comparison itself is C05.eq / C12.equals; here only its outcome on a bool matters
+    b = Rule("R3", "Err ( VErr )", "Err ( verr_plain ( ) )", why="an error without a cited value").apply(b, log)
+    pre = prelude("ctx.rs").replace("pub struct VErr;", """// an error and the texts its message cites (the message itself is not modelled)
+pub struct VErr { pub cites: Ghost<Set<Seq<char>>> }
+pub trait Cite { spec fn cited(&self) -> Set<Seq<char>>; }
+pub fn verr_plain() -> (r: VErr) ensures r.cites@ == Set::<Seq<char>>::empty() { VErr { cites: Ghost(Set::empty()) } }
+impl VErr { pub fn citing<A: Cite>(self, a: &A) -> (r: VErr) ensures r.cites@ == self.cites@.union(a.cited()) { VErr { cites: Ghost(self.cites@.union(a.cited())) } } }""")
+    if "pub struct VErr {" not in pre:
+        raise Undecided("prelude ctx.rs: `pub struct VErr;` not found")
+    gen = header(log, f"{INSTR}: assert; {CTXF}: Ctx::pop, Ctx::stack_size") + pre + """
+impl Cite for VString { open spec fn cited(&self) -> Set<Seq<char>> { set![text_of(self)] } }
+impl Cite for &VString { open spec fn cited(&self) -> Set<Seq<char>> { set![text_of(*self)] } }
+impl Cite for Primitive { open spec fn cited(&self) -> Set<Seq<char>> { Set::empty() } }
+""" + ctx + f"""
+// Primitive::equals(x, true): the comparison itself is C05.eq / C12.equals; here only its outcome on a bool and on nil matters
 #[verifier::external_body] pub fn equals_true(p: &Primitive) -> (r: Result<bool, VErr>)
-    ensures *p is Bool ==> r == Ok::<bool, VErr>(p->Bool_0), !(*p is Bool) ==> (r is Err || r == Ok::<bool, VErr>(false)) {{ unimplemented!() }}
+    ensures *p is Bool ==> r == Ok::<bool, VErr>(p->Bool_0), *p == Primitive::Optional(None) ==> r == Ok::<bool, VErr>(false),
+            !(*p is Bool) ==> (r is Err || r == Ok::<bool, VErr>(false)) {{ unimplemented!() }}
 pub fn arg0(a: &Vec<VString>) -> (r: &VString) requires a@.len() > 0 ensures *r == a@[0] {{ &a[0] }}
 
 //@ OBL C01.handler.assert
 // `assert e`: continues exactly when the VALUE of e is true (an element / field holding true counts); a false value stops the program
-// with an MScript error that carries the source position the compiler passed -- never a panic
+// with an MScript error that carries the source position the compiler passed -- never a panic.  C17: the error of a FAILED assert -- the
+// operand is false, or nil where a bool was promised (a missing map entry, an unset field) -- names the position of that assert
 pub fn assert(ctx: &mut Ctx, args: &Vec<VString>) -> (r: Result<(), VErr>)
     requires args@.len() >= 1            // the compiler always passes the position (Assertion::compile)
     ensures
         (old(ctx).stack@.len() == 1 && moved_out(old(ctx).stack@[0]) == Some(Primitive::Bool(true))) ==> r is Ok && final(ctx).stack@.len() == 0,
-        (old(ctx).stack@.len() == 1 && moved_out(old(ctx).stack@[0]) == Some(Primitive::Bool(false))) ==> r is Err,
+        (old(ctx).stack@.len() == 1 && moved_out(old(ctx).stack@[0]) == Some(Primitive::Bool(false))) ==> r is Err && r->Err_0.cites@.contains(text_of(&args@[0])),
+        (old(ctx).stack@.len() == 1 && moved_out(old(ctx).stack@[0]) == Some(Primitive::Optional(None))) ==> r is Err && r->Err_0.cites@.contains(text_of(&args@[0])),
         r is Ok ==> old(ctx).stack@.len() == 1 && moved_out(old(ctx).stack@[0]) == Some(Primitive::Bool(true)),
         rest(final(ctx)) == rest(old(ctx)),
 {{
@@ -1078,7 +1115,7 @@ pub fn assert(ctx: &mut Ctx, args: &Vec<VString>) -> (r: Result<(), VErr>)
 }} // verus!
 fn main() {{}}
 """
-    obls = ctx_obls(names, ["C01"]) + [Obl("C01.handler.assert", ["C01", "C17", "C02"], fn="assert", desc="assert: Ok exactly when the single operand's value is true (through element / field pointers); false is an MScript error; no panic")]
+    obls = ctx_obls(names, ["C01"]) + [Obl("C01.handler.assert", ["C01", "C17", "C02"], fn="assert", desc="assert: Ok exactly when the single operand's value is true (through element / field pointers); false or nil is an MScript error that cites the assert's source position; no panic")]
     return gen, obls, log
 
 
